@@ -28,21 +28,6 @@ type c10Hist struct {
 	res  [][]int64 // route A results
 }
 
-// apply one command to a replica; returns result line, dump, and whether the code panicked
-func c10Apply(rep *mReplica, c *mCmd, idx uint64) (res interface{}, panicked string) {
-	defer func() {
-		if e := recover(); e != nil {
-			panicked = fmt.Sprint(e)
-		}
-	}()
-	res = rep.h.Apply(c.entry(idx))
-	return
-}
-
-func c10Obs(res []int64, d *mDump) []int64 {
-	return append(append([]int64{}, res...), d.ints()...)
-}
-
 // run one case; tr == nil in the child process (nothing recorded; the last, malformed command is executed for real)
 func c10RunCase(ci int, tr *vw.Trace, child bool) {
 	id := fmt.Sprint(ci)
@@ -115,7 +100,7 @@ func c10RunCase(ci int, tr *vw.Trace, child bool) {
 			}
 			vw.Stat("malformed-survived", 1)
 		}
-		res, pan := c10Apply(A, c, idx)
+		res, pan := mApply(A, c, idx)
 		if pan != "" {
 			report("crash-on-api-command:"+c.kind, "a command the service's own API can submit made the replica panic while applying it",
 				map[string]interface{}{"panic": pan, "op": vw.Ints(c.line(idx))})
@@ -143,7 +128,7 @@ func c10RunCase(ci int, tr *vw.Trace, child bool) {
 		}
 		if tr != nil {
 			tr.Op(c.line(idx)...)
-			tr.Obs(c10Obs(rl, cur)...)
+			tr.Obs(mObs(rl, cur)...)
 		}
 		if p == j {
 			takeSnap()
@@ -165,7 +150,7 @@ func c10RunCase(ci int, tr *vw.Trace, child bool) {
 	deliver := func(rep *mReplica, from, to int, out map[int][]int64) bool {
 		for p := from; p <= to; p++ {
 			c := H.cmds[p-1]
-			res, pan := c10Apply(rep, c, H.idx[p-1])
+			res, pan := mApply(rep, c, H.idx[p-1])
 			if pan != "" {
 				report("crash-on-api-command:"+c.kind, "a command the service's own API can submit made a replica panic while applying it",
 					map[string]interface{}{"panic": pan, "op": vw.Ints(c.line(H.idx[p-1])), "route": "replay"})
@@ -174,7 +159,7 @@ func c10RunCase(ci int, tr *vw.Trace, child bool) {
 			rl := mResult(res)
 			out[p] = rl
 			tr.Op(c.line(H.idx[p-1])...)
-			tr.Obs(c10Obs(rl, mTakeDump(rep.h))...)
+			tr.Obs(mObs(rl, mTakeDump(rep.h))...)
 		}
 		return true
 	}
